@@ -353,7 +353,36 @@ func resultsCmd(job []byte, out *Out) error {
 	return nil
 }
 
-func init() { register("tooltable", toolTableCmd) }
+func init() {
+	register("tooltable", toolTableCmd)
+	register("bytetable", byteTableCmd)
+}
+
+// the byte <-> bit helpers of utils.go on all 256 byte values and on a few multi-byte strings
+func byteTableCmd(job []byte, out *Out) error {
+	rows := make([][]int, 256)
+	back := make([]int, 256)
+	for b := 0; b < 256; b++ {
+		bs := randomness.B2bit(byte(b))
+		r := make([]int, len(bs))
+		for i, v := range bs {
+			if v {
+				r[i] = 1
+			}
+		}
+		rows[b] = r
+		back[b] = int(randomness.B2Byte(bs))
+	}
+	arr := randomness.B2bitArr([]byte{0x80, 0x01, 0xA5, 0x00, 0xFF})
+	ai := make([]int, len(arr))
+	for i, v := range arr {
+		if v {
+			ai[i] = 1
+		}
+	}
+	out.Emit(R{"ev": "bytes", "rows": rows, "back": back, "arr": ai, "arrbytes": []int{0x80, 0x01, 0xA5, 0x00, 0xFF}})
+	return nil
+}
 
 // job: {"files":[paths]} -> for each file the library values for every (test, documented parameter), keyed by
 // the canonical parameter tokens used in the report header
